@@ -37,9 +37,16 @@ def run_one(e):
     try:
         subprocess.run(["git", "clone", "-q", "--no-hardlinks", "/repo", tmp],
                        check=True, capture_output=True)
-        p = subprocess.run(["git", "-c", "user.email=x@x", "-c", "user.name=x",
-                            "revert", "--no-commit", commit], cwd=tmp,
-                           capture_output=True, text=True)
+        manual = os.path.join(VERIF, "reverts", commit[:7] + ".diff")
+        if os.path.exists(manual):
+            # a hand-made undo patch takes precedence (the plain revert no
+            # longer applies, or no longer re-creates the defect)
+            p = subprocess.CompletedProcess([], 1)
+        else:
+            p = subprocess.run(["git", "-c", "user.email=x@x", "-c",
+                                "user.name=x", "revert", "--no-commit",
+                                commit], cwd=tmp, capture_output=True,
+                               text=True)
         if p.returncode != 0:
             # later repairs touched the same lines: use the hand-made undo
             # patch /verif/reverts/<commit>.diff on a fresh clone
